@@ -81,6 +81,13 @@ Proof.
       * destruct (qeqb q 1) eqn:Hq; try reflexivity. apply qeqb_true in Hq. subst. simpl. ring.
   - destruct uo; try reflexivity.
     destruct o; rewrite ?mk_un_sound, Hrec; simpl; ring.
+  - destruct bo; try reflexivity; destruct o; try reflexivity.
+    + destruct (is_equal1 x d0) eqn:E0.
+      { apply (is_equal1_sound r) in E0. rewrite mk_un_sound. simpl. rewrite E0. ring. }
+      destruct (is_equal1 x d1) eqn:E1; try reflexivity.
+      apply (is_equal1_sound r) in E1. rewrite mk_un_sound. simpl. rewrite E1. ring.
+    + destruct (is_equal1 x d1) eqn:E1; try reflexivity.
+      apply (is_equal1_sound r) in E1. simpl. rewrite E1. ring.
 Qed.
 
 Lemma bin_const_sound rec : rec_ok rec ->
@@ -382,6 +389,9 @@ Proof.
     + destruct o; [destruct (qeqb q 0) | destruct (qeqb q 0) | destruct (qeqb q 1)]; intro H; occ.
   - destruct uo; try (intro H; solve [occ]).
     destruct o; intro H; occ; apply Hrec in H; occ.
+  - destruct bo; try (intro H; solve [occ]); destruct o; try (intro H; solve [occ]).
+    + destruct (is_equal1 a d0); [intro H; occ |]. destruct (is_equal1 a d1); intro H; occ.
+    + destruct (is_equal1 a d1); intro H; occ.
 Qed.
 
 Lemma bin_const_occ rec : rec_occ rec ->
